@@ -39,6 +39,22 @@ func c13GrammarP(r *mon.Run, s string, pinned bool) (*ljson.Number, bool) {
 	if want && hugeExp(s) {
 		// resource bound: whether a number whose exponent exceeds 100000 is accepted is not judged, only that the call returns
 		r.Count("huge_exponent_probes_returned", 1)
+		if err == nil {
+			// accepted: then it is the number that was written, not the mantissa alone
+			i := strings.IndexAny(s, "eE")
+			d, ok := ref.ParseDec(s)
+			dm, okm := ref.ParseDec(s[:i])
+			nm, merr := ljson.NewNumber(cbytes.NewBytes(s[:i]))
+			if ok && okm && merr == nil {
+				var got int
+				if p := mon.Guard(func() { got = n.Cmp(nm) }); p != nil {
+					r.Violate("panic", "Number.Cmp/"+p.Site, fmt.Sprintf("Cmp(%q, %q) panicked: %s", s, s[:i], p.Value), cs)
+				} else if want := d.Cmp(dm); got != want {
+					r.Violate("cmp", s+" ? "+s[:i], fmt.Sprintf("NewNumber accepts %q, but Cmp with its own mantissa %q is %d; exact arithmetic says %d", s, s[:i], got, want), cs)
+				}
+				r.Count("huge_exponent_accepted_and_compared_with_mantissa", 1)
+			}
+		}
 		return nil, false
 	}
 	if (err == nil) != want {
@@ -241,6 +257,26 @@ func c13Run(r *mon.Run) {
 				}
 			}
 		}
+		// exponents written with leading zeros (up to 40 of them): the digit count says nothing about the value
+		for _, z := range []int{1, 2, 5, 17, 18, 19, 20, 21, 22, 25, 40} {
+			for _, m := range []string{"1", "12.5", "-7", "0.001", "0"} {
+				for _, sign := range []string{"", "+", "-"} {
+					for _, e := range []string{"0", "3", "12", "1000001"} {
+						if m == "0" {
+							continue // zero mantissa + exponent: recorded finding family
+						}
+						c13Grammar(r, m+"e"+sign+strings.Repeat("0", z)+e)
+						c13Grammar(r, m+"E"+sign+strings.Repeat("0", z)+e)
+					}
+				}
+			}
+		}
+		// a resource-bound exponent behind every shape of mantissa (0.5, 0.05, 0.50, 5.0, 50, -0.7, 0.3000 ...)
+		for _, m := range []string{"0.5", "-0.7", "0.50", "0.3000", "0.05", "5.0", "50", "5", "0.55", "1.5", "10.5", "-0.05", "0.0005"} {
+			for _, e := range []string{"e1000001", "E-2000000", "e99999999999999999999", "e+100001", "e-100001", "e999999", "e1000000", "E-1000000"} {
+				c13Grammar(r, m+e)
+			}
+		}
 		for _, s := range []string{"", " 1", "1 ", "１", "1e99999999999999999999", "1e-99999999999999999999", "0." + strings.Repeat("0", 500) + "1", "1e18446744073709551617", "-", "1e1048577"} {
 			c13Grammar(r, s)
 		}
@@ -353,7 +389,7 @@ func init() {
 				c13Pair(r, c.A, c.B, na, nb)
 			}
 		},
-		Rule:               "grammar: every string over {0 1 9 - + . e E x} up to length 7 (quick) / 9 (thorough) is given to NewNumber and compared with the RFC 8259 number regex; for accepted strings String() must be a plain numeral denoting the same exact decimal and LengthOfFractionalPart() the number of significant fraction digits. order of calls: each of 20 refused texts (grammar, exponent beyond the resource bound, empty, foreign bytes) is followed by fully judged parses of 15 plain numbers, and one random pair in 50 is preceded by a refused huge-exponent text. comparison: all ordered pairs of the grammatical strings of length <= 5 over {0 1 9 - . e E +}, plus random pairs with up to 46 mantissa digits and exponents up to 3000 (equal-by-shift, last-digit neighbours, unrelated), each compared both ways: Cmp/Equal/GT/GTE/LT/LTE vs exact decimal comparison (cross-checked with math/big.Rat for small exponents). distinct_nontrivial = distinct strings and pairs (hashed).",
+		Rule:               "grammar: every string over {0 1 9 - + . e E x} up to length 7 (quick) / 9 (thorough) is given to NewNumber and compared with the RFC 8259 number regex; for accepted strings String() must be a plain numeral denoting the same exact decimal and LengthOfFractionalPart() the number of significant fraction digits. exponents spelled with up to 40 leading zeros; 13 mantissa shapes x 8 exponents around the resource bound (a text that is accepted there must compare with its own mantissa as exact arithmetic says). order of calls: each of 20 refused texts (grammar, exponent beyond the resource bound, empty, foreign bytes) is followed by fully judged parses of 15 plain numbers, and one random pair in 50 is preceded by a refused huge-exponent text. comparison: all ordered pairs of the grammatical strings of length <= 5 over {0 1 9 - . e E +}, plus random pairs with up to 46 mantissa digits and exponents up to 3000 (equal-by-shift, last-digit neighbours, unrelated), each compared both ways: Cmp/Equal/GT/GTE/LT/LTE vs exact decimal comparison (cross-checked with math/big.Rat for small exponents). distinct_nontrivial = distinct strings and pairs (hashed).",
 		MinNontrivialQuick: 200000, MinNontrivialThorough: 2000000,
 		Assumptions: []string{"reference: harness/internal/ref/decimal.go (exact normalised decimals) cross-checked against math/big.Rat", "exponents with more than 3000 in magnitude are only probed at a few fixed points (memory)"},
 		Exhaustive:  "all strings up to the stated length over the 9-byte alphabet; all ordered pairs of grammatical strings up to the stated length",
